@@ -79,6 +79,8 @@ pub enum Op {
     StorePanicky(u8),
     /// a projected guard (Map over the container) kept like a guard
     MapLoad(u8),
+    /// A-B-A on the pointer: swap a fresh value in, then swap the very same old pointer back
+    Aba(u8),
 }
 
 #[derive(Clone, Debug, PartialEq, Eq, Serialize, Deserialize)]
@@ -155,6 +157,7 @@ pub struct Profile {
     pub w_cache: u32,
     pub w_panicky: u32,
     pub w_map: u32,
+    pub w_aba: u32,
     pub rcu_panic: bool,
     pub rcu_nested: bool,
     pub late: u32,   // percent chance (per extra thread) of a late-starting thread
@@ -202,6 +205,7 @@ impl Profile {
             w_cache: 0,
             w_panicky: 0,
             w_map: 0,
+            w_aba: 0,
             rcu_panic: false,
             rcu_nested: false,
             late: 30,
@@ -272,6 +276,7 @@ fn op_strategy(p: &Profile, ncont: u8, nthreads: u8) -> BoxedStrategy<Op> {
     add(p.w_cache, c.clone().prop_map(Op::CacheLoad).boxed());
     add(p.w_panicky, c.clone().prop_map(Op::StorePanicky).boxed());
     add(p.w_map, c.clone().prop_map(Op::MapLoad).boxed());
+    add(p.w_aba, c.clone().prop_map(Op::Aba).boxed());
     proptest::strategy::Union::new_weighted(alts).boxed()
 }
 
